@@ -581,16 +581,46 @@ class ProgGen:
     def shared_or_new(self, fam, sc, depth):
         """Either a fresh expression or one that an earlier verb already used (same object, C10 / C02)."""
         rng = self.rng
-        cands = [e for e, f in self.pool if f == fam]
+        scfam = {}
+        for x, f in sc:
+            scfam[(x["k"], x.get("t"), x["n"])] = f
+
+        def leaves(e):
+            if isinstance(e, dict):
+                if e.get("k") in ("col", "c"):
+                    yield (e["k"], e.get("t"), e["n"])
+                for v in e.values():
+                    yield from leaves(v)
+            elif isinstance(e, list):
+                for v in e:
+                    yield from leaves(v)
+
+        # a pooled expression may be reused only where all its leaves still have the family they had (REF does not type check)
+        cands = [e for e, f, sig in self.pool if f == fam and all(scfam.get(k) == ff or (k[0] == "col" and self._leaf_fam(k) == ff) for k, ff in sig.items())]
         if cands and rng.random() < 0.25:
             self.features.add("shared_expr")
             return rng.choice(cands)
         e = self.eg.expr(fam, sc, depth)
         if e.get("k") in ("fn", "case", "cast") and rng.random() < 0.3:
-            self.nshare += 1
-            e["sh"] = self.nshare
-            self.pool.append((e, fam))
+            sig = {}
+            okk = True
+            for k in leaves(e):
+                ff = scfam.get(k) or (self._leaf_fam(k) if k[0] == "col" else None)
+                if ff is None:
+                    okk = False
+                sig[k] = ff
+            if okk:
+                self.nshare += 1
+                e["sh"] = self.nshare
+                self.pool.append((e, fam, sig))
         return e
+
+    def _leaf_fam(self, k):
+        try:
+            t = self.rr.env[k[1]]
+            return t.cols[t.name_to_id()[k[2]]].fam
+        except Exception:
+            return None
 
     def step_filter(self, h, depth=2):
         sc = self.scope(h)
